@@ -41,7 +41,7 @@ def cases(tier, seed):
         a1, c1 = rng.randrange(nI), rng.randrange(nX)
         wins += [[a1, a1 + 1, 0, nX], [0, nI, c1, c1 + 1]]
         out.append({'id': 'win:%d' % i, 'src': src, 'windows': wins, 'reduce_iops': i % 2 == 1, 'detection': ['thorough', 'heuristic', 'exhaustive', 'strip'][i % 4],
-                    'route': 'cli' if i % 5 == 4 else 'api', 'rate': rng.choice([4, 8, 2]), 'bs': rng.choice([[4, 4, -1], [4, 4, -1], [8, 8, -1]]), 'cost': 3})
+                    'route': 'cli' if i % 5 == 4 else 'api', 'rate': rng.choice([4, 8, 2]), 'bs': rng.choice([[4, 4, -1], [4, 4, -1], [8, 8, -1]]) if i % 4 else [[8, 4, -1], [4, 8, -1], [4, 16, -1]][(i // 4) % 3], 'cost': 3})
     return out
 
 
